@@ -123,6 +123,34 @@ fn gen_far(rng: &mut Rng) -> Case {
     }
 }
 
+fn gen_total_case(idx: u64, rng: &mut Rng, pools: &Pools) -> Case {
+    let mut rng = rng;
+    let rng = &mut rng;
+    match idx % 16 {
+        0 => m_match::gen_big(rng, pools, false),
+        1 if idx % 64 == 1 => m_match::gen_big(rng, pools, true),
+        2 if idx % 128 == 2 => gen_far(rng),
+        3 | 4 => m_match::gen_anchored(rng, pools),
+        5 => m_match::gen_placed(rng, pools),
+        6 | 7 => {
+            // mid size: exercises the matrix path with many different shapes
+            let cfg = gen_cfg(rng, true);
+            let alphabet = gen_alphabet(rng, pools, Profile::ScoreAscii);
+            let hl = rng.range(30, 900);
+            let hay = gen_text(rng, &alphabet, hl);
+            let (mut needle, _) = gen_needle(rng, &hay, &alphabet, &cfg, 90);
+            normalize_needle(&mut needle, &cfg);
+            Case {
+                hay: Text::new(hay),
+                needle: Text::new(needle),
+                cfg,
+                profile: "mid",
+            }
+        }
+        _ => m_match::gen_small(rng, pools, false),
+    }
+}
+
 fn all_calls(m: &mut Matcher, case: &Case, hr: bool, nr: bool) -> Result<Vec<(Option<u16>, Vec<u32>)>, String> {
     let h = case.hay.view(hr);
     let n = case.needle.view(nr);
@@ -198,6 +226,7 @@ pub fn run(opts: &Opts, pools: &Pools, rep: &mut Report) {
     let props = m_match::Props::parse("C10");
     // the long lived matcher whose history must not matter
     let mut veteran = m_match::initial_matcher(opts.seed, opts.shard, 0);
+    let mut kept: Vec<(Case, bool, bool, Vec<(Option<u16>, Vec<u32>)>, u64)> = Vec::new();
     let range: Box<dyn Iterator<Item = u64>> = match opts.replay {
         Some(i) => Box::new(0..i + 1), // history matters: replay the whole prefix
         None => Box::new(0..opts.cases),
@@ -218,29 +247,7 @@ pub fn run(opts: &Opts, pools: &Pools, rep: &mut Report) {
             rep.count("c10.veteran-replaced-by-its-clone");
         }
         // alternate large and small inputs so that stale slab content differs maximally
-        let case = match idx % 16 {
-            0 => m_match::gen_big(&mut rng, pools, false),
-            1 if idx % 64 == 1 => m_match::gen_big(&mut rng, pools, true),
-            2 if idx % 128 == 2 => gen_far(&mut rng),
-            3 | 4 => m_match::gen_anchored(&mut rng, pools),
-            5 => m_match::gen_placed(&mut rng, pools),
-            6 | 7 => {
-                // mid size: exercises the matrix path with many different shapes
-                let cfg = gen_cfg(&mut rng, true);
-                let alphabet = gen_alphabet(&mut rng, pools, Profile::ScoreAscii);
-                let hl = rng.range(30, 900);
-                let hay = gen_text(&mut rng, &alphabet, hl);
-                let (mut needle, _) = gen_needle(&mut rng, &hay, &alphabet, &cfg, 90);
-                normalize_needle(&mut needle, &cfg);
-                Case {
-                    hay: Text::new(hay),
-                    needle: Text::new(needle),
-                    cfg,
-                    profile: "mid",
-                }
-            }
-            _ => m_match::gen_small(&mut rng, pools, false),
-        };
+        let case = gen_total_case(idx, &mut rng, pools);
         if case.needle.chars.iter().any(|&c| ref_norm(c, &case.cfg) != c) {
             rep.count("skipped.needle-not-a-fixed-point");
             continue;
@@ -290,6 +297,9 @@ pub fn run(opts: &Opts, pools: &Pools, rep: &mut Report) {
         let mut fresh = Matcher::new(case.cfg.real());
         let expected = all_calls(&mut fresh, &case, hr, nr);
         rep.add("calls", 24);
+        if let (Ok(e), true) = (&expected, kept.len() < 1500 && case.hay.len() <= 1500) {
+            kept.push((case.clone(), hr, nr, e.clone(), idx));
+        }
         match (got, expected) {
             (Ok(g), Ok(e)) => {
                 rep.count("c10.history-compared");
@@ -327,6 +337,31 @@ pub fn run(opts: &Opts, pools: &Pools, rep: &mut Report) {
                     );
                 }
                 veteran = Matcher::new(case.cfg.real());
+            }
+        }
+    }
+    // the same calls again, on fresh matchers, after everything else this process has done in between (process-wide state
+    // such as caches must not matter either)
+    for (case, hr, nr, first, idx) in kept.iter() {
+        let mut fresh = Matcher::new(case.cfg.real());
+        rep.count("c10.calls-repeated-at-the-end-of-the-run");
+        match all_calls(&mut fresh, case, *hr, *nr) {
+            Ok(again) if again == *first => (),
+            Ok(again) => {
+                let which = again.iter().zip(first.iter()).position(|(a, b)| a != b).unwrap_or(0);
+                rep.violation(
+                    "C10",
+                    "history-dependent-result",
+                    format!("{} repeated later in the same process", ALGOS[which / 2].name()),
+                    jobj! {"case" => case.to_json_short(), "case_id" => format!("{}:{}:{}", opts.seed, opts.shard, idx),
+                           "first" => format!("{:?}", first[which]), "later" => format!("{:?}", again[which]),
+                           "note" => "both results come from freshly constructed matchers with the same configuration"},
+                );
+                break;
+            }
+            Err(msg) => {
+                rep.violation("C10", "panic", format!("panic@{}", msg.rsplit(" @ ").next().unwrap_or("")), jobj! {"case" => case.to_json_short(), "message" => msg});
+                break;
             }
         }
     }
